@@ -13,7 +13,16 @@ Exhaustive enumeration (driver E1) of whole families of nested dictionaries:
   * every d: intersection(d) == intersection(d, d) == d (idempotent) and a deep copy;
   * every ordered triple of a smaller family and every level: intersection(a, b, c) == reference ==
     intersection(intersection(a, b), c) == intersection(a, intersection(b, c)), deep copy, arguments
-    unchanged; intersection() == {}.
+    unchanged; intersection() == {};
+  * typed arguments: every ordered pair of a small family with lists among the leaves is run through the
+    same laws with one or both arguments made of a subtype of dict (lena.context.Context, a bare user
+    subclass, OrderedDict; only the outermost dictionary or every dictionary): same values, a deep copy
+    (the id-graph follows subtypes), arguments unchanged including the types of their containers;
+  * string form: update_recursively(d, "a.b", value) == update_recursively(d, {"a": {"b": value}}) (the
+    reference merge) for every d of two families, every key string of 1..3 components and every kind of
+    explicit value (falsy and truthy scalars, containers, strings that read like a key or a dotted
+    path, dictionaries), and the form without a value ("a.b.x": the last part is the value);
+  * update histories over two dictionaries with string and dictionary forms of *other*.
 
 The reference model is mc/ref/c07c08_dicts.py (containment, greatest lower bound, difference in two
 independent formulations that are cross-checked in a self-check shard, merge).
@@ -26,6 +35,7 @@ from lena.context import intersection, difference, update_recursively, update_ne
 
 from mc.core import Result, result_violations
 from mc.ref import c07c08_dicts as R
+from mc.ref import c07_types as T
 
 ID = "C07"
 LEVEL = "exploration"
@@ -34,7 +44,11 @@ RULE = ("every ordered pair (and, for the smaller families, every ordered triple
         "nested dictionaries is built fresh and run through the real functions once per recursion "
         "level; one case = one (pair or triple, level) or one (key, pair) for update_nested; a case is "
         "non-trivial when the dictionaries have at least one common key that holds different values "
-        "(update_nested: the key is present in d and in other); cases are distinct by construction")
+        "(update_nested: the key is present in d and in other); the pairs of the typed family are run "
+        "again for every (dict subtype, outermost/every dictionary, which arguments) combination, one "
+        "case per (pair, combination, level); one case per (dictionary, key string, explicit value) of "
+        "the string form, non-trivial when the first key component is a key of the dictionary; cases "
+        "are distinct by construction")
 ASSUMPTIONS = [
     "dictionaries have string keys from {a, b}; leaves are 0, 1, None, '', 'x', False, [] and [0] "
     "(lists are leaves), plus empty dictionaries; depth <= 3",
@@ -47,6 +61,11 @@ ASSUMPTIONS = [
     "other's scalar): any exception is accepted there, a normal return must still keep the previous "
     "value reachable",
     "arguments are pairwise unshared (no aliasing between d1 and d2 before the call)",
+    "a dictionary is any instance of dict: intersection documents 'a dictionary or its subtype (copied "
+    "from dicts[0])'; the type of the result is recorded as an outcome, not judged; results are "
+    "compared with the reference by ==, so an OrderedDict counts as the dictionary with its items",
+    "key strings of the string form have non-empty components from {a, b} (empty components have no "
+    "documented meaning); the explicit value is arbitrary and is never interpreted",
 ]
 NONTRIVIAL_FLOOR = {"quick": 200000, "thorough": 2000000}
 BUDGET_S = {"quick": 240, "thorough": 1500}
@@ -89,6 +108,22 @@ def _triple_families(tier):
     }
 
 
+def _typed_families(tier):
+    """Families whose pairs are also run with arguments made of subtypes of dict (mc.ref.c07_types):
+    name -> (keys_by_depth, leaves, levels, number of shards). Lists among the leaves: the deep copy
+    must reach every mutable value, whatever the type of the dictionary that holds it."""
+    if tier == "thorough":
+        return {"t-ab2": ([AB, AB], [0, [0]], LV4, 48)}
+    return {"t-ab.a": ([AB, ("a",)], [0, [0]], LV4, 9)}
+
+
+def _strform_families(tier):
+    """Families of the dictionaries that are updated through the string form of *other*."""
+    if tier == "thorough":
+        return {"chain3": ([("a",)] * 3, LEAVES_ALL), "ab2": ([AB, AB], [0, "", "x", []])}
+    return {"chain3": ([("a",)] * 3, LEAVES_ALL), "ab2": ([AB, AB], [0, ""])}
+
+
 _FAM_CACHE = {}
 
 
@@ -107,6 +142,15 @@ def describe(tier):
     for name, spec in sorted(_triple_families(tier).items()):
         out.append("triples of family %s (leaves %r): %d dictionaries, levels %s"
                    % (name, spec[1], len(_family(spec)), list(spec[2])))
+    for name, spec in sorted(_typed_families(tier).items()):
+        out.append("pairs of family %s (keys per depth %s, leaves %r): %d dictionaries, levels %s, with one or "
+                   "both arguments made of %s (outermost dictionary only / every dictionary)"
+                   % (name, [list(k) for k in spec[0]], spec[1], len(_family(spec)), list(spec[2]),
+                      ", ".join(T.KINDS)))
+    for name, spec in sorted(_strform_families(tier).items()):
+        out.append("string form of update_recursively on family %s (leaves %r): %d dictionaries x %d key "
+                   "strings x %d explicit values, %d strings without a value"
+                   % (name, spec[1], len(_family(spec)), len(STR_KEYS), len(STR_VALUES), len(STR_NOVALUE)))
     return "; ".join(out)
 
 
@@ -114,6 +158,15 @@ def shards(tier):
     out = [{"kind": "selfcheck", "bound": "reference-selfcheck"}, {"kind": "nary", "bound": "small"}]
     for start in range(len(HIST_STARTS)):
         out.append({"kind": "histories", "start": start, "bound": "update-histories"})
+    for name in sorted(_strform_families(tier)):
+        out.append({"kind": "strform", "fam": name, "bound": "string-form-" + name})
+    for name, spec in sorted(_typed_families(tier).items()):
+        n = len(_family(spec))
+        k = spec[3]
+        for i in range(k):
+            lo, hi = n * i // k, n * (i + 1) // k
+            if lo < hi:
+                out.append({"kind": "typed", "fam": name, "lo": lo, "hi": hi, "bound": "typed-" + name})
     fams = _families(tier)
     order = ["chain3", "ab1", "ab3-a", "ab2"]
     for name in order:
@@ -199,9 +252,9 @@ def _exc_name(e):
 def _shared(result, args):
     """(kind, argument index) of the first dict/list object of *result* that also belongs to an
     argument, or None."""
-    mine = R.containers(result)
+    mine = T.containers(result)
     for i, a in enumerate(args):
-        theirs = R.containers(a)
+        theirs = T.containers(a)
         for ident in mine:
             if ident in theirs:
                 return type(mine[ident]).__name__, i + 1
@@ -210,35 +263,65 @@ def _shared(result, args):
 
 # -- one pair ----------------------------------------------------------------------------------------
 
-def check_pair(res, p1, p2, levels, keys, commut=True, only=None):
+def _makers(p1, p2, variant):
+    """Two functions that build fresh arguments from the prototypes: plain dictionaries (None), with
+    equal sub-dictionaries stored as one object ('aliased'), or made of a subtype of dict
+    ((kind, depth, positions) of mc.ref.c07_types)."""
+    if variant is None:
+        return (lambda: R.fresh(p1)), (lambda: R.fresh(p2))
+    if variant == "aliased":
+        return (lambda: R.aliased(p1)[0]), (lambda: R.aliased(p2)[0])
+    kind, depth, pos = variant
+
+    def maker(p, i):
+        if i in pos:
+            return lambda: T.wrap(p, kind, depth)
+        return lambda: R.fresh(p)
+    return maker(p1, 1), maker(p2, 2)
+
+
+def _typed_case(case, cause, tv):
+    if tv:
+        return dict(case, typed=[tv[0], tv[1], list(tv[2])]), dict(cause, argument_type=tv[0])
+    return case, cause
+
+
+def check_pair(res, p1, p2, levels, keys, commut=True, only=None, typed=()):
     """All laws for the ordered pair of prototypes (p1, p2). *only*: restrict to one law family
-    ('level', 'update_recursively', 'update_nested') - used by replay."""
+    ('level', 'update_recursively', 'update_nested', 'typed') - used by replay and by the shards of
+    typed arguments. *typed*: the (kind, depth, positions) variants of mc.ref.c07_types to run."""
     nontriv = _common_differing(p1, p2)
     f1, f2 = _canon(p1), _canon(p2)
     variants = []
     if only in (None, "level"):
-        variants.append(False)
+        variants.append(None)
         # the same laws when equal sub-dictionaries of an argument are one object (a value does not
         # depend on whether equal parts of it are stored once or twice)
         if R.aliased(p1)[1] or R.aliased(p2)[1]:
-            variants.append(True)
-    for alias in variants:
-        def mk1():
-            return R.aliased(p1)[0] if alias else R.fresh(p1)
-
-        def mk2():
-            return R.aliased(p2)[0] if alias else R.fresh(p2)
+            variants.append("aliased")
+    if only in (None, "typed"):
+        # the same laws when the arguments are made of a subtype of dict
+        variants.extend(tuple(v) for v in typed)
+    for variant in variants:
+        alias = variant == "aliased"
+        tv = variant if isinstance(variant, tuple) else None
+        mk1, mk2 = _makers(p1, p2, variant)
 
         def _viol(c, observed, expected, cause):
             if alias:
                 c = dict(c, aliased=True)
                 cause = dict(cause, shared_subdictionaries=True)
-            res.violation(c, observed, expected, cause)
+            if tv:
+                c = dict(c, typed=[tv[0], tv[1], list(tv[2])])
+                cause = dict(cause, argument_type=tv[0])
+            res.violation(c, T.plain(observed), expected, cause)
         d1, d2 = mk1(), mk2()
         for level in levels:
             case = {"kind": "pair", "d1": p1, "d2": p2, "level": level}
             if alias:
                 case["aliased"] = True
+            if tv:
+                case["typed"] = [tv[0], tv[1], list(tv[2])]
             fin = level >= 0
             # ---- intersection
             inter = None
@@ -259,14 +342,14 @@ def check_pair(res, p1, p2, levels, keys, commut=True, only=None):
                     _viol(dict(case, law="intersection-deepcopy"),
                                   "result shares a %s with argument %d" % sh, "no shared mutable object",
                                   {"law": "intersection-deepcopy", "shared": sh[0], "n": 2})
-                elif len(R.containers(inter)) > 1:
+                elif len(T.containers(inter)) > 1:
                     res.count("deepcopy_checked_with_nested_containers")
                 if commut:
                     try:
                         inter2 = intersection(d2, d1, level=level)
                     except Exception as e:
                         inter2 = "raised " + _exc_name(e)
-                    if inter2 != inter:
+                    if (T.plain(inter2) != T.plain(inter)) if tv else (inter2 != inter):
                         _viol(dict(case, law="intersection-commutative"), [inter, inter2],
                                       "equal results",
                                       {"law": "intersection-commutative", "finite_level": fin})
@@ -311,23 +394,43 @@ def check_pair(res, p1, p2, levels, keys, commut=True, only=None):
             res.case(nontrivial=nontriv)
             if alias:
                 res.count("pairs_with_shared_subdictionaries")
+            if tv:
+                res.count("level_cases_with_arguments_of_a_dict_subtype")
+                if R.isdict(inter):
+                    _outcome(res, "T", type(inter).__name__)
         # the arguments survived all levels: typed comparison once more
         if _canon(d1) != f1 or _canon(d2) != f2:
             _viol({"kind": "pair", "d1": p1, "d2": p2, "level": levels[-1],
                            "law": "argument-unchanged"}, [R.fresh(d1), R.fresh(d2)], [p1, p2],
                           {"law": "argument-unchanged", "functions": "intersection/difference",
                            "arg": 1 if _canon(d1) != f1 else 2})
+        elif tv and levels:
+            # ... and no container of an argument became a container of another type
+            t1, t2 = T.tcanon(mk1()), T.tcanon(mk2())
+            if T.tcanon(d1) != t1 or T.tcanon(d2) != t2:
+                which = 1 if T.tcanon(d1) != t1 else 2
+                _viol({"kind": "pair", "d1": p1, "d2": p2, "level": levels[-1],
+                       "law": "argument-unchanged"}, repr([T.tcanon(d1), T.tcanon(d2)]), repr([t1, t2]),
+                      {"law": "argument-unchanged", "functions": "intersection/difference",
+                       "arg": which, "what": "container-type"})
 
     if only in (None, "update_recursively"):
         check_update_recursively(res, p1, p2, nontriv)
     if only in (None, "update_nested"):
         for key in keys:
             check_update_nested(res, key, p1, p2)
+    if only in (None, "typed"):
+        for tv in typed:
+            tv = tuple(tv)
+            check_update_recursively(res, p1, p2, nontriv, tv)
+            for key in keys:
+                check_update_nested(res, key, p1, p2, tv)
 
 
-def check_update_recursively(res, p1, p2, nontriv):
+def check_update_recursively(res, p1, p2, nontriv, tv=None):
     case = {"kind": "pair", "d1": p1, "d2": p2, "law": "update_recursively"}
-    d, other = R.fresh(p1), R.fresh(p2)
+    mk1, mk2 = _makers(p1, p2, tv)
+    d, other = mk1(), mk2()
     try:
         ret = update_recursively(d, other)
         err = None
@@ -337,7 +440,8 @@ def check_update_recursively(res, p1, p2, nontriv):
     res.case(nontrivial=nontriv)
     _outcome(res, "U", d)
     if err is not None:
-        res.violation(case, "raised " + err, exp, {"law": "update_recursively", "raised": err})
+        case, cause = _typed_case(case, {"law": "update_recursively", "raised": err}, tv)
+        res.violation(case, "raised " + err, exp, cause)
         return
     if d != exp or ret is not None:
         if not R.contained(p2, d):
@@ -350,8 +454,9 @@ def check_update_recursively(res, p1, p2, nontriv):
         else:
             sub = "result-differs"
         fd = R.first_difference(d, exp)
-        res.violation(case, R.fresh(d), exp,
-                      {"law": "update_recursively", "sublaw": sub, "diff": fd[1] if fd else "none"})
+        case, cause = _typed_case(case, {"law": "update_recursively", "sublaw": sub,
+                                         "diff": fd[1] if fd else "none"}, tv)
+        res.violation(case, T.plain(d), exp, cause)
 
 
 def _chain_end(other, key):
@@ -367,9 +472,11 @@ def _chain_end(other, key):
         n += 1
 
 
-def check_update_nested(res, key, p1, p2):
+def check_update_nested(res, key, p1, p2, tv=None):
     case = {"kind": "pair", "d1": p1, "d2": p2, "key": key, "law": "update_nested"}
-    d, other = R.fresh(p1), R.fresh(p2)
+    case = _typed_case(case, {}, tv)[0]
+    mk1, mk2 = _makers(p1, p2, tv)
+    d, other = mk1(), mk2()
     had = key in d
     prev = d.get(key)
     others_before = {k: v for k, v in d.items() if k != key}
@@ -390,8 +497,8 @@ def check_update_nested(res, key, p1, p2):
             # keep both other's scalar and the previous value, any exception is accepted
             return
         res.violation(case, "raised " + _exc_name(err), "previous d[key] reachable under the new d[key]",
-                      {"law": "update_nested", "raised": _exc_name(err),
-                       "other_key_chain": "ends-in-" + end, "key_in_d": had})
+                      _typed_case(case, {"law": "update_nested", "raised": _exc_name(err),
+                                         "other_key_chain": "ends-in-" + end, "key_in_d": had}, tv)[1])
         return
     problems = []
     new = d.get(key, R.ABSENT)
@@ -430,39 +537,47 @@ def check_update_nested(res, key, p1, p2):
         if new != exp:
             problems.append("data-of-other-not-preserved")
     if problems:
-        res.violation(case, R.fresh(d), "see law", {"law": "update_nested", "problem": problems[0],
-                                                   "other_key_chain": "ends-in-" + end, "key_in_d": had})
+        res.violation(case, T.plain(d), "see law",
+                      _typed_case(case, {"law": "update_nested", "problem": problems[0],
+                                         "other_key_chain": "ends-in-" + end, "key_in_d": had}, tv)[1])
 
 
 # -- single dictionaries, triples ----------------------------------------------------------------
 
-def check_single(res, p, levels):
+def check_single(res, p, levels, tv=None):
+    """*tv*: (kind, depth) of mc.ref.c07_types - the dictionary is made of that subtype of dict."""
+    def mk():
+        return T.wrap(p, tv[0], tv[1]) if tv else R.fresh(p)
+    extra = {"argument_type": tv[0]} if tv else {}
     for level in levels:
         case = {"kind": "single", "d1": p, "level": level}
-        d = R.fresh(p)
+        if tv:
+            case["typed"] = [tv[0], tv[1]]
+        d = mk()
         for form, args in (("one-argument", (d,)), ("same-argument-twice", (d, d)),
-                           ("equal-arguments", (d, R.fresh(p)))):
+                           ("equal-arguments", (d, mk()))):
             try:
                 got = intersection(*args, level=level)
             except Exception as e:
                 got = "raised " + _exc_name(e)
             if got != p or not R.isdict(got):
-                res.violation(dict(case, law="intersection-idempotent", form=form), got, p,
-                              {"law": "intersection-idempotent", "form": form, "finite_level": level >= 0})
+                res.violation(dict(case, law="intersection-idempotent", form=form), T.plain(got), p,
+                              dict(extra, law="intersection-idempotent", form=form, finite_level=level >= 0))
             elif _shared(got, args) is not None:
                 res.violation(dict(case, law="intersection-deepcopy", form=form), "shares %s with argument %d"
                               % _shared(got, args), "no shared mutable object",
-                              {"law": "intersection-deepcopy", "shared": _shared(got, args)[0], "n": len(args)})
+                              dict(extra, law="intersection-deepcopy", shared=_shared(got, args)[0],
+                                   n=len(args)))
             try:
                 got = difference(d, args[-1], level=level)
             except Exception as e:
                 got = "raised " + _exc_name(e)
             if got != {}:
-                res.violation(dict(case, law="difference-self", form=form), got, {},
-                              {"law": "difference-self", "form": form})
-        if R.tfreeze(d) != R.tfreeze(p):
-            res.violation(dict(case, law="argument-unchanged"), R.fresh(d), p,
-                          {"law": "argument-unchanged", "functions": "intersection/difference", "arg": 1})
+                res.violation(dict(case, law="difference-self", form=form), T.plain(got), {},
+                              dict(extra, law="difference-self", form=form))
+        if T.tcanon(d) != T.tcanon(mk()):
+            res.violation(dict(case, law="argument-unchanged"), T.plain(d), p,
+                          dict(extra, law="argument-unchanged", functions="intersection/difference", arg=1))
         res.case(nontrivial=len(R.containers(p)) > 1)
 
 
@@ -725,6 +840,79 @@ def run_histories(res, start, maxlen):
     res.sample({"kind": "history", "start": start, "hist": [[0, 1], [0, 6], [1, 1]]}, 1)
 
 
+# -- the string form of *other*, every kind of explicit value -------------------------------------------
+# update_recursively(d, "a.b", value) means update_recursively(d, {"a": {"b": value}}) - "the value becomes
+# the value of the deepest key" - for every value: falsy ones, containers, strings that read like a key or
+# like a dotted path. Without a value the last dot-separated part is the value. Key components are
+# non-empty (empty components have no documented meaning).
+
+STR_KEYS = T.key_strings(AB, 3)
+STR_VALUES = [0, 1, None, "", "x", False, True, 0.0, [], [0], (), {}, "a", "a.b", ".", " ",
+              {"a": 0}, {"b": {}}, {"a": {"b": ""}}]
+STR_NOVALUE = [k + "." + v for k in T.key_strings(AB, 2) for v in ("a", "b", "x", "c d")]
+
+
+def check_strform(res, p, s, vi):
+    """vi: index into STR_VALUES, or None for the form without an explicit value."""
+    case = {"kind": "strform", "law": "update-string-form", "d1": p, "s": s, "vi": vi}
+    if vi is None:
+        den = T.denoted_novalue(s)
+        value = s.split(".")[-1]
+    else:
+        value = STR_VALUES[vi]
+        den = T.denoted(s, R.fresh(value))
+    exp = R.merge(p, den)
+    d = R.fresh(p)
+    try:
+        if vi is None:
+            ret = update_recursively(d, s)
+        else:
+            ret = update_recursively(d, s, R.fresh(value))
+        err = None
+    except Exception as e:
+        ret, err = None, _exc_name(e)
+    res.case(nontrivial=s.split(".")[0] in p)
+    _outcome(res, "S", d if err is None else err)
+    cause = {"law": "update-string-form", "form": "no-value" if vi is None else "value",
+             "value_kind": R.kind(value), "value_type": type(value).__name__}
+    if err is not None:
+        res.violation(case, "raised " + err, exp, dict(cause, raised=err))
+    elif d != exp or ret is not None:
+        if not R.contained(den, d):
+            sub = "other-not-contained"
+        elif any(R.lookup(exp, q, R.ABSENT) == v and R.lookup(d, q, R.ABSENT) != v for q, v in R.atoms(p)):
+            sub = "item-of-d-lost"
+        elif ret is not None:
+            sub = "returned-a-value"
+        else:
+            sub = "result-differs"
+        res.violation(case, T.plain(d), exp, dict(cause, sublaw=sub))
+
+
+def run_strform(res, fam):
+    for p in fam:
+        for s in STR_KEYS:
+            for vi in range(len(STR_VALUES)):
+                check_strform(res, p, s, vi)
+        for s in STR_NOVALUE:
+            check_strform(res, p, s, None)
+    res.sample({"kind": "strform", "law": "update-string-form", "d1": fam[len(fam) // 2], "s": "a.b", "vi": 3}, 1)
+
+
+def run_typed(res, fam, lo, hi, levels, keys):
+    for i in range(lo, hi):
+        p1 = fam[i]
+        for kind in T.KINDS:
+            for depth in T.DEPTHS:
+                if depth == "all" and not T.has_nested_dict(p1):
+                    continue
+                check_single(res, p1, levels, (kind, depth))
+        for j, p2 in enumerate(fam):
+            check_pair(res, p1, p2, levels, keys, commut=(i <= j), only="typed", typed=T.variants(p1, p2))
+        res.sample({"kind": "pair", "d1": p1, "d2": fam[(i * 7 + 3) % len(fam)], "level": -1,
+                    "typed": ["Context", "top", [1]]}, 1)
+
+
 # -- runner interface ---------------------------------------------------------------------------------
 
 def run_shard(p, tier):
@@ -746,6 +934,12 @@ def run_shard(p, tier):
             res.sample({"kind": "pair", "d1": p1, "d2": fam[(i * 7 + 3) % len(fam)], "level": -1}, 3)
     elif kind == "histories":
         run_histories(res, p["start"], 4 if tier == "thorough" else 3)
+    elif kind == "strform":
+        run_strform(res, _family(_strform_families(tier)[p["fam"]]))
+    elif kind == "typed":
+        spec = _typed_families(tier)[p["fam"]]
+        keys = sorted(set(k for ks in spec[0] for k in ks))
+        run_typed(res, _family(spec), p["lo"], p["hi"], spec[2], keys)
     elif kind == "triples":
         spec = _triple_families(tier)[p["fam"]]
         fam = _family(spec)
@@ -768,14 +962,23 @@ def replay(case):
     law = case.get("law")
     if kind == "pair":
         p1, p2 = R.fresh(case["d1"]), R.fresh(case["d2"])
-        if law == "update_recursively":
+        if case.get("typed"):
+            tv = (case["typed"][0], case["typed"][1], tuple(case["typed"][2]))
+            check_pair(res, p1, p2, (case["level"],) if "level" in case else (),
+                       (case["key"],) if "key" in case else (), commut=True, only="typed", typed=[tv])
+            return [v for v in result_violations(res)
+                    if v["case"].get("law") == law and v["case"].get("typed") == case["typed"]]
+        elif law == "update_recursively":
             check_pair(res, p1, p2, (), (), only="update_recursively")
         elif law == "update_nested":
             check_pair(res, p1, p2, (), (case["key"],), only="update_nested")
         else:
             check_pair(res, p1, p2, (case["level"],), (), commut=True, only="level")
     elif kind == "single":
-        check_single(res, R.fresh(case["d1"]), (case["level"],))
+        check_single(res, R.fresh(case["d1"]), (case["level"],),
+                     tuple(case["typed"]) if case.get("typed") else None)
+    elif kind == "strform":
+        check_strform(res, R.fresh(case["d1"]), case["s"], case["vi"])
     elif kind == "triple":
         check_triple(res, R.fresh(case["d1"]), R.fresh(case["d2"]), R.fresh(case["d3"]), (case["level"],))
     elif kind == "nary":
@@ -818,9 +1021,16 @@ LEVEL_TEXT = ("bounded exhaustive exploration: every ordered pair of every neste
               "depth-3 families and of a one-key chain family with all leaf kinds, at every recursion level in "
               "{-1, 0, 1, 2, 3}, plus every ordered triple of the 144-dictionary family, is executed on the "
               "real intersection / difference / update_recursively / update_nested and judged against a "
-              "containment / greatest-lower-bound / merge reference and the algebraic laws")
+              "containment / greatest-lower-bound / merge reference and the algebraic laws; the pairs of a "
+              "36-dictionary family (thorough 144) also with arguments made of three subtypes of dict "
+              "(lena's Context, a bare subclass, OrderedDict), and the string form of update_recursively "
+              "for 14 key strings x 19 kinds of explicit value on 171 dictionaries (thorough 927)")
 LEVEL_NOTE = ("holds for the enumerated families only (two keys, depth <= 3, eight leaf values); arguments "
-              "whose equal sub-dictionaries are one object are included, dictionaries that alias each other "
-              "across arguments before the call, non-string keys and dict subclasses are outside the alphabet")
+              "whose equal sub-dictionaries are one object are included; arguments made of a dict subtype "
+              "(Context, a bare subclass, OrderedDict) are included for a small family of pairs only, not for "
+              "triples; dictionaries that alias each other across arguments before the call, non-string keys, "
+              "subtypes that override dictionary methods, and key strings with empty components are outside "
+              "the alphabet")
 TECHNIQUE = ("exhaustive enumeration of dictionary families on the real code against an independent reference "
-             "model and differential laws (commutativity, associativity, idempotence, reconstruction)")
+             "model and differential laws (commutativity, associativity, idempotence, reconstruction, string form "
+             "= dictionary form, dict subtype = dict)")
